@@ -57,9 +57,9 @@ func Env(workspace bool, extra ...string) []string {
 	}
 	env = append(env, "PATH="+os.Getenv("PATH"), "GOTOOLCHAIN=local", "GOPROXY=off", "GOSUMDB=off")
 	if workspace {
-		env = append(env, "GOFLAGS=")
+		env = append(env, "GOFLAGS=-trimpath")
 	} else {
-		env = append(env, "GOFLAGS=-mod=mod", "GOWORK=off")
+		env = append(env, "GOFLAGS=-mod=mod -trimpath", "GOWORK=off")
 	}
 	return append(env, extra...)
 }
@@ -217,4 +217,47 @@ func init() {
 	_ = os.Setenv("GOPROXY", "off")
 	_ = os.Setenv("GOSUMDB", "off")
 	_ = os.Unsetenv("GOFLAGS")
+}
+
+// TrimGoCache keeps the go build cache from growing without bound across runs: when it
+// holds more than maxBytes, entries not used for longer than minAge are removed (go itself
+// refreshes the mtime of an entry it uses at most once per hour, so minAge must exceed that;
+// entries of concurrently running builds are therefore never touched). Builds made by the
+// checks use -trimpath, which makes the scratch directory irrelevant for cache keys: a run on
+// an unchanged tree adds ~20 MB, not ~700 MB.
+func TrimGoCache(maxBytes int64, minAge time.Duration) {
+	out, err := exec.Command("go", "env", "GOCACHE").Output()
+	if err != nil {
+		return
+	}
+	dir := strings.TrimSpace(string(out))
+	if dir == "" || dir == "off" {
+		return
+	}
+	type ent struct {
+		path string
+		size int64
+		mod  time.Time
+	}
+	var ents []ent
+	var total int64
+	_ = filepath.Walk(dir, func(p string, info os.FileInfo, err error) error {
+		if err != nil || info.IsDir() {
+			return nil
+		}
+		total += info.Size()
+		if n := info.Name(); strings.HasSuffix(n, "-a") || strings.HasSuffix(n, "-d") {
+			ents = append(ents, ent{p, info.Size(), info.ModTime()})
+		}
+		return nil
+	})
+	if total <= maxBytes {
+		return
+	}
+	cut := time.Now().Add(-minAge)
+	for _, e := range ents {
+		if e.mod.Before(cut) {
+			_ = os.Remove(e.path)
+		}
+	}
 }
